@@ -232,7 +232,7 @@ int main(int argc, char **argv) {
 	size_t ncases = (size_t) vh::argU64(argc, argv, 2, 100);
 	size_t maxw = (size_t) vh::argU64(argc, argv, 3, 20);
 	std::string only = argc > 4 ? argv[4] : "";
-	vh::Rng master(seed * 0x9E3779B97F4A7C15ull + 17);
+	vh::Rng master(vh::hashSeed(seed) + 17);
 	g_vectors = maxw > 40 ? 48 : 64;
 	o << "# prop=C17 seed=" << seed << " ncases=" << ncases << " maxw=" << maxw << '\n';
 	std::vector<size_t> rounds(NPRIMS, 0);
